@@ -141,6 +141,12 @@ F5Docs(z) ==
   \cup {[defs |-> [node |-> ListNode(LocalRef(FragName("n"))) @@ [anchor |-> "n"]], ref |-> LocalRef(FragName("n"))]}
   \cup {[defs |-> [t |-> TreeNode(LocalRef(PtrDefs("t")))], ref |-> LocalRef(PtrDefs("t"))]}
   \cup {TreeNode(LocalRef(FragNone))}
+  \* one schema object applied at two depths of ONE instance at once (two recursive properties; a recursive property
+  \* next to additionalProperties / unevaluatedProperties): what a frame has noted so far is its own
+  \cup {[properties |-> [p |-> [ref |-> LocalRef(FragNone)], q |-> [ref |-> LocalRef(FragNone)]], additionalProperties |-> FalseS],
+        [properties |-> [p |-> [ref |-> LocalRef(FragNone)]], additionalProperties |-> [type |-> "object"]],
+        [defs |-> [n |-> [anchor |-> "n", properties |-> [p |-> [ref |-> LocalRef(FragName("n"))], q |-> [ref |-> LocalRef(FragName("n"))]],
+                          unevaluatedProperties |-> FalseS]], ref |-> LocalRef(FragName("n"))]}
   \* the SAME reference text ("#/$defs/v", "#e", "#") inside two embedded resources: a relative reference is resolved
   \* against the base of the resource it stands in, so equal texts name different subschemas
   \cup {[defs |-> [cnt |-> [id |-> IdOf(URI("http", "h1", TRUE, <<"cnt.json">>)), defs |-> [v |-> d1 @@ [anchor |-> "e"]], ref |-> rf],
@@ -157,6 +163,8 @@ F5Vals ==
   \cup {ListVal(n, l) : n \in 1..3, l \in {Obj([v |-> Num(R_1)]), Obj([v |-> Str("a")]), Obj([w |-> Num(R_1)]), Num(R_1)}}
   \cup {Obj([p |-> x]) : x \in {Num(R_1), Num(R_3), Str("a")}}
   \cup {Obj([p |-> x, q |-> y]) : x \in {Num(R_1), Str("a")}, y \in {Num(R_1), Num(R_3), Str("a")}}
+  \cup {Obj([p |-> EmptyObj, q |-> EmptyObj]), Obj([p |-> Obj([q |-> EmptyObj]), q |-> EmptyObj]), Obj([p |-> Obj([zz |-> EmptyObj]), zz |-> Num(R_1)]),
+        Obj([p |-> Obj([zz |-> EmptyObj]), zz |-> EmptyObj]), Obj([p |-> Obj([p |-> EmptyObj, q |-> EmptyObj]), q |-> Obj([zz |-> Num(R_1)])])}
   \cup {Obj([p |-> Obj([p |-> x, q |-> Obj([p |-> y])]), q |-> Obj([p |-> w])]) : x \in {Num(R_1), Str("a")}, y \in {Num(R_1), Str("a")}, w \in {Num(R_1), Str("a")}}
   \cup {Arr(<<Num(R_1), Arr(<<Num(R_3), Arr(<<x>>)>>)>>) : x \in {Num(R_1), Str("a"), EmptyArr}}
   \cup {Arr(<<x>>) : x \in {Num(R_1), Str("a")}}
@@ -333,7 +341,14 @@ G3Docs(z) ==
         [definitions |-> [x |-> [id |-> IdFrag("foo"), items |-> [ref |-> LocalRef(PtrDefn("y"))]], y |-> IntS], ref |-> LocalRef(FragName("foo"))],
         [definitions |-> [x |-> [id |-> IdFrag("foo"), properties |-> [a |-> [ref |-> LocalRef(FragName("foo"))], v |-> IntS]]],
          properties |-> [a |-> [ref |-> LocalRef(FragName("foo"))]]]}
-G3Vals == F5Vals \cup {Obj([a |-> x]) : x \in {Num(R_1), Str("a")}} \cup {Obj([zz |-> Num(R_1)])}
+\* (draft-07) the same fragment-only reference text inside two embedded resources (absolute $id, own definitions)
+G3TwoRes == {[definitions |-> [cnt |-> [id |-> IdOf(URI("http", "h1", TRUE, <<"cnt.json">>)), definitions |-> [v |-> d1], type |-> "object",
+                                        properties |-> [v |-> [ref |-> rf]]],
+                                nam |-> [id |-> IdOf(URI("http", "h1", TRUE, <<"nam.json">>)), definitions |-> [v |-> d2], type |-> "object",
+                                        properties |-> [v |-> [ref |-> rf]]]],
+              properties |-> [p |-> [ref |-> Ref(URI("http", "h1", TRUE, <<"cnt.json">>), FragNone)], q |-> [ref |-> Ref(URI("http", "h1", TRUE, <<"nam.json">>), FragNone)]]] :
+                d1 \in {IntS}, d2 \in {StrS, [minimum |-> R_2]}, rf \in {LocalRef(PtrDefn("v"))}}
+G3Vals == {Obj([p |-> Obj([v |-> x]), q |-> Obj([v |-> y])]) : x \in {Num(R_1), Str("a")}, y \in {Num(R_1), Num(R_3), Str("a")}} \cup F5Vals \cup {Obj([a |-> x]) : x \in {Num(R_1), Str("a")}} \cup {Obj([zz |-> Num(R_1)])}
           \cup {Arr(<<Str("a"), Num(R_1)>>), Arr(<<Num(R_1), Num(R_1)>>), Arr(<<Str("a"), Str("a")>>), Arr(<<Num(R_1)>>), EmptyArr,
                 Obj([b |-> Num(R_1)]), Obj([b |-> Str("a")]), Obj([a |-> Num(R_1), b |-> Str("a")])}
 
@@ -492,10 +507,22 @@ FkFailDoc(kinds, fork) ==
                 [] fork = "if"    -> [if |-> A, then |-> [required |-> <<"p">>], else |-> B]
   IN [docs |-> <<[uri |-> DyRootURI, s |-> [defs |-> (RN[3] :> R3) @@ [t |-> TNode(kinds[1], 0)]] @@ body]>>]
 FkFailCases(z) == {FkFailDoc(kinds, fork) : kinds \in [1..3 -> {"dyn", "none"}], fork \in {"anyOf", "oneOf", "not", "if"}}
+\* the site applies its reference to the NAMES of the instance's members (propertyNames): the same name is judged
+\* under r1's rule on one path and under r2's on the other - in one call and from call to call
+FkNameRes(i, len) == [id |-> IdOf(RelRef(<<RN[i]>>)), defs |-> [t |-> [dynamicAnchor |-> "n", maxLength |-> len]]] @@ HopTo(3, "ref")
+FkNamesDoc(l1, l2) ==
+  [docs |-> <<[uri |-> DyRootURI,
+               s |-> [properties |-> [p |-> HopTo(1, "ref"), q |-> HopTo(2, "ref")],
+                      defs |-> (RN[1] :> FkNameRes(1, l1)) @@ (RN[2] :> FkNameRes(2, l2))
+                               @@ (RN[3] :> [id |-> IdOf(RelRef(<<RN[3]>>)), defs |-> [t |-> [dynamicAnchor |-> "n"]],
+                                             propertyNames |-> [dynamicRef |-> LocalRef(FragName("n"))]])]]>>]
+FkNamesCases == {FkNamesDoc(1, 2), FkNamesDoc(2, 1), FkNamesDoc(1, 3)}
 FkCases(z) ==
   UNION {{FkEmbedded(kinds, hk, fin), FkRemote(kinds, hk, fin)} :
            kinds \in FkKindSets, hk \in (IF K >= 2 THEN {"ref", "allOf", "dref"} ELSE {"ref"}), fin \in FkFinals}
-FkVals == {Arr(<<Arr(<<Num(Mark[i])>>)>>) : i \in 1..5} \cup {Arr(<<Arr(<<Num(Mark[2])>>), Arr(<<Num(Mark[3])>>)>>), Arr(<<Num(Mark[2])>>)} \cup
+FkVals == {Obj([p |-> Obj([ab |-> Num(R_1)])]), Obj([q |-> Obj([ab |-> Num(R_1)])]), Obj([p |-> Obj([ab |-> Num(R_1)]), q |-> Obj([ab |-> Num(R_1)])]),
+           Obj([p |-> Obj([a |-> Num(R_1)]), q |-> Obj([ab |-> Num(R_1), abc |-> Num(R_1)])]), Obj([q |-> Obj([abc |-> Num(R_1)]), p |-> Obj([a |-> Num(R_1)])])} \cup
+          {Arr(<<Arr(<<Num(Mark[i])>>)>>) : i \in 1..5} \cup {Arr(<<Arr(<<Num(Mark[2])>>), Arr(<<Num(Mark[3])>>)>>), Arr(<<Num(Mark[2])>>)} \cup
           {Obj([p |-> Num(Mark[i])]) : i \in 1..5} \cup {Obj([q |-> Num(Mark[i])]) : i \in 1..5}
           \cup {Obj([p |-> Num(Mark[i]), q |-> Num(Mark[j])]) : i \in 1..5, j \in 1..5}
           \cup {Num(Mark[i]) : i \in 1..5} \cup {Arr(<<Num(Mark[i]), Num(Mark[j])>>) : i \in 1..5, j \in 1..5} \cup {Arr(<<Num(Mark[i])>>) : i \in 1..5}
@@ -648,11 +675,11 @@ Cases ==
     [] Family = "U2" -> WithSchema(U2Schemas(0))
     [] Family = "G1" -> WithSchema(G1Schemas(0))
     [] Family = "G2" -> WithSchema(G2Schemas(0))
-    [] Family = "G3" -> WithSchema(G3Docs(0))
+    [] Family = "G3" -> WithSchema(G3Docs(0) \cup G3TwoRes)
     [] Family = "G4" -> G4Docs(0)
     [] Family = "G5" -> {u \in G5Docs(0) \cup G5Diamond : ResolveOK(u, "d7")}
     [] Family = "DY" -> DyCases(0) \cup DyMixedCases(0)
-    [] Family = "FK" -> FkCases(0) \cup FkForkCases(0) \cup FkFailCases(0)
+    [] Family = "FK" -> FkCases(0) \cup FkForkCases(0) \cup FkFailCases(0) \cup FkNamesCases
     [] Family = "DUP" -> DupCases(0)
     [] Family = "MX" -> MxDocs(0)
 InstSet ==
